@@ -244,11 +244,11 @@ theorem uidsList_append (a b : List Expr) : Expr.uidsList (a ++ b) = Expr.uidsLi
   | cons e es ih => simp [Expr.uidsList, ih]
 
 theorem get_map_rename (d : Defs) (m : List (String × String)) (u : Uid) :
-    Defs.get (d.map (fun (e : Uid × String × Expr) => (e.1, Spec.renameName m e.2.1, e.2.2))) u =
-      (d.get u).map (fun p => (Spec.renameName m p.1, p.2)) := by
+    Defs.get (d.map (fun (e : Uid × String × Expr) => (e.1, renameName m e.2.1, e.2.2))) u =
+      (d.get u).map (fun p => (renameName m p.1, p.2)) := by
   unfold Defs.get
   rw [List.find?_map]
-  have : ((fun (x : Uid × String × Expr) => x.1 == u) ∘ fun (e : Uid × String × Expr) => (e.1, Spec.renameName m e.2.1, e.2.2)) =
+  have : ((fun (x : Uid × String × Expr) => x.1 == u) ∘ fun (e : Uid × String × Expr) => (e.1, renameName m e.2.1, e.2.2)) =
       (fun x => x.1 == u) := by
     funext e; rfl
   rw [this]
@@ -356,7 +356,7 @@ theorem rename_inv (db : DB) (sc : List Uid) (i : NodeId) (c : Ast) (m : List (S
     (ih : ∀ needed, ∃ r n', compile c needed = .ok (r, n') ∧ Inv db sc r (Spec.run db c)) (needed : Needed) :
     ∃ r n', compile (.rename i c m) needed = .ok (r, n') ∧ Inv db sc r (Spec.run db (.rename i c m)) := by
   obtain ⟨r, n', hc, inv⟩ := ih needed
-  refine ⟨{ r with defs := r.defs.map (fun e => (e.1, Spec.renameName m e.2.1, e.2.2)) }, n',
+  refine ⟨{ r with defs := r.defs.map (fun e => (e.1, renameName m e.2.1, e.2.2)) }, n',
     by simp only [compile, hc, bind, Except.bind, pure, Except.pure], ?_⟩
   have hgetr := get_map_rename r.defs m
   constructor
